@@ -498,6 +498,30 @@ func (a *ivFn) fixpoint() {
 			break
 		}
 	}
+	// narrowing: from the (widened) post-fixpoint, re-apply the transfer functions without joining with the old value; each
+	// application of a monotone transfer to a post-fixpoint is again a post-fixpoint, so this only removes slack
+	for round := 0; round < 3; round++ {
+		for _, b := range fn.Blocks {
+			for _, in := range b.Instrs {
+				v, ok := in.(ssa.Value)
+				if !ok {
+					continue
+				}
+				nv := a.transfer(v, b)
+				if pin, ok := a.pins[v]; ok && !nv.top {
+					if m, ok := meetI(nv, pin); ok {
+						nv = m
+					}
+				}
+				if old, had := a.st[v]; had && !nv.top && !old.top {
+					if m, ok := meetI(nv, old); ok {
+						nv = m
+					}
+				}
+				a.st[v] = nv
+			}
+		}
+	}
 	// returns
 	n := fn.Signature.Results().Len()
 	a.ret = make([]ival, n)
@@ -636,7 +660,9 @@ func termKey1(v ssa.Value, depth int) string {
 		}
 	case *ssa.Call:
 		if bi, ok := x.Call.Value.(*ssa.Builtin); ok && (bi.Name() == "len") && len(x.Call.Args) == 1 {
-			if _, isStr := x.Call.Args[0].Type().Underlying().(*types.Basic); isStr {
+			switch x.Call.Args[0].Type().Underlying().(type) {
+			case *types.Basic, *types.Slice:
+				// the length of a string or slice VALUE never changes (appending makes a new value)
 				return "(len " + termKey(x.Call.Args[0], depth+1) + ")"
 			}
 		}
@@ -645,6 +671,14 @@ func termKey1(v ssa.Value, depth int) string {
 			return "(neg " + termKey(x.X, depth+1) + ")"
 		}
 		if x.Op == token.MUL {
+			if al, ok := x.X.(*ssa.Alloc); ok {
+				if settledLoad(al, x) {
+					return fmt.Sprintf("(load %p)", al)
+				}
+			}
+			if g, ok := x.X.(*ssa.Global); ok && globalWrittenOnlyByInit(g) {
+				return "(glob " + g.Pkg.Pkg.Path() + "." + g.Name() + ")"
+			}
 			// a field of a struct parameter that go/ssa spilled to a local: *(&local.f) where local is stored once
 			if fa, ok := x.X.(*ssa.FieldAddr); ok {
 				if al, ok := fa.X.(*ssa.Alloc); ok && !al.Heap {
@@ -967,14 +1001,12 @@ func (a *ivFn) transfer(v ssa.Value, b *ssa.BasicBlock) ival {
 		if k.contains(res) {
 			return res
 		}
-		if why := a.template(x, b, a.guards(b)); why != "" {
-			a.proven[x] = why
-			m, ok := meetI(res, k.full())
-			if ok {
+		// Every signed add/sub/mul is an obligation of its own (reported when it can overflow), so inside the analysis the
+		// operation may be assumed not to wrap: the first overflow on any execution is the one that gets reported.
+		if k.signed {
+			if m, ok := meetI(res, k.full()); ok {
 				return m
 			}
-		} else {
-			delete(a.proven, x)
 		}
 		return k.full()
 	case *ssa.UnOp:
@@ -1234,7 +1266,9 @@ func (a *ivFn) call(c *ssa.Call, b *ssa.BasicBlock) ival {
 	k := kindOfType(c.Type())
 	if bi, ok := c.Call.Value.(*ssa.Builtin); ok {
 		switch bi.Name() {
-		case "len", "cap":
+		case "len":
+			return ibig(a.lenLowerOf(c.Call.Args[0], b, 0), kindOfType(types.Typ[types.Int]).hi)
+		case "cap":
 			return ibig(big.NewInt(0), kindOfType(types.Typ[types.Int]).hi)
 		case "min", "max":
 			return k.full()
@@ -1422,4 +1456,179 @@ func sortedObKeys(m map[string]*ivOb) []string {
 	}
 	sort.Strings(ks)
 	return ks
+}
+
+var globInitOnly = map[*ssa.Global]bool{}
+var globInitDone = map[*ssa.Global]bool{}
+
+// globalWrittenOnlyByInit: no function other than the package initialiser stores to g or takes its address for
+// anything but loading.
+func globalWrittenOnlyByInit(g *ssa.Global) bool {
+	if globInitDone[g] {
+		return globInitOnly[g]
+	}
+	globInitDone[g] = true
+	ok := true
+	for _, mem := range g.Pkg.Members {
+		fn, isFn := mem.(*ssa.Function)
+		if !isFn {
+			continue
+		}
+		for _, f := range withAnon(fn) {
+			forEachInstr(f, func(in ssa.Instruction) {
+				for _, op := range in.Operands(nil) {
+					if *op != ssa.Value(g) {
+						continue
+					}
+					if ld, isLd := in.(*ssa.UnOp); isLd && ld.Op == token.MUL {
+						continue
+					}
+					if f.Name() == "init" && f.Parent() == nil {
+						continue
+					}
+					ok = false
+				}
+			})
+		}
+	}
+	// methods
+	prog := g.Pkg.Prog
+	for _, mem := range g.Pkg.Members {
+		tn, isT := mem.(*ssa.Type)
+		if !isT {
+			continue
+		}
+		for _, t := range []types.Type{tn.Type(), types.NewPointer(tn.Type())} {
+			ms := prog.MethodSets.MethodSet(t)
+			for i := 0; i < ms.Len(); i++ {
+				m := prog.MethodValue(ms.At(i))
+				if m == nil {
+					continue
+				}
+				for _, f := range withAnon(m) {
+					forEachInstr(f, func(in ssa.Instruction) {
+						for _, op := range in.Operands(nil) {
+							if *op == ssa.Value(g) {
+								if ld, isLd := in.(*ssa.UnOp); !isLd || ld.Op != token.MUL {
+									ok = false
+								}
+							}
+						}
+					})
+				}
+			}
+		}
+	}
+	globInitOnly[g] = ok
+	return ok
+}
+
+// lenLowerOf: a lower bound for len(v) as seen in block b (0 when nothing is known).
+func (a *ivFn) lenLowerOf(v ssa.Value, b *ssa.BasicBlock, depth int) *big.Int {
+	zero := big.NewInt(0)
+	if depth > 4 {
+		return zero
+	}
+	best := zero
+	up := func(n *big.Int) {
+		if n != nil && n.Cmp(best) > 0 {
+			best = n
+		}
+	}
+	switch x := v.(type) {
+	case *ssa.Phi:
+		var m *big.Int
+		for i, e := range x.Edges {
+			pred := x.Block().Preds[i]
+			l := a.lenLowerOf(e, pred, depth+1)
+			// the edge's own condition
+			if iff, ok := lastInstr(pred).(*ssa.If); ok && pred.Succs[0] != pred.Succs[1] {
+				g := []Guard{flattenGuard(Guard{Cond: iff.Cond, Pol: pred.Succs[0] == x.Block(), If: iff})}
+				if l2 := lenLowerBound(a, e, g, pred); l2.Cmp(l) > 0 {
+					l = l2
+				}
+			}
+			if m == nil || l.Cmp(m) < 0 {
+				m = l
+			}
+		}
+		up(m)
+	case *ssa.Slice:
+		if x.High != nil {
+			hi := a.get(x.High, b)
+			lo := ipoint(0)
+			if x.Low != nil {
+				lo = a.get(x.Low, b)
+			}
+			if !hi.top && !lo.top && !hi.float && !lo.float {
+				up(new(big.Int).Sub(hi.lo, lo.hi))
+			}
+		} else if al, ok := x.X.(*ssa.Alloc); ok && x.Low == nil {
+			if at, ok := al.Type().Underlying().(*types.Pointer).Elem().Underlying().(*types.Array); ok {
+				up(big.NewInt(at.Len()))
+			}
+		}
+	case *ssa.MakeSlice:
+		l := a.get(x.Len, b)
+		if !l.top && !l.float {
+			up(l.lo)
+		}
+	case *ssa.Const:
+		if s, ok := constString(x); ok {
+			up(big.NewInt(int64(len(s))))
+		}
+	}
+	if b != nil {
+		up(lenLowerBound(a, v, a.guards(b), b))
+	}
+	return best
+}
+
+// settledLoad: every instruction that may write the local al (a store to it, or a call that receives its address and
+// is known not to retain it) dominates the load ld, and the address escapes in no other way — so all such loads see the
+// same value.
+func settledLoad(al *ssa.Alloc, ld *ssa.UnOp) bool {
+	for _, ref := range *al.Referrers() {
+		switch y := ref.(type) {
+		case *ssa.UnOp:
+			if y.Op != token.MUL {
+				return false
+			}
+		case *ssa.Store:
+			if y.Addr != ssa.Value(al) || !instrDominates(y, ld) {
+				return false
+			}
+		case *ssa.Call:
+			f := y.Call.StaticCallee()
+			if f == nil {
+				return false
+			}
+			q := fnPkgPath(f) + "." + fnShort(f)
+			if q != "encoding/json.Unmarshal" && q != "encoding/json.Decoder.Decode" {
+				return false
+			}
+			if !instrDominates(y, ld) {
+				return false
+			}
+		case *ssa.MakeInterface:
+			// &x passed as `any` to a call
+			for _, r2 := range *y.Referrers() {
+				c, ok := r2.(*ssa.Call)
+				if !ok || c.Call.StaticCallee() == nil {
+					return false
+				}
+				q := fnPkgPath(c.Call.StaticCallee()) + "." + fnShort(c.Call.StaticCallee())
+				if q != "encoding/json.Unmarshal" && q != "encoding/json.Decoder.Decode" {
+					return false
+				}
+				if !instrDominates(c, ld) {
+					return false
+				}
+			}
+		case *ssa.DebugRef:
+		default:
+			return false
+		}
+	}
+	return true
 }
